@@ -59,15 +59,16 @@ def parse_or_problem(text):
 
 
 def judge_c05(ctx, ex):
-    schema, problem = ctx["schema"], ctx["parse_problem"]
-    if problem:
-        yield (problem, True, None)
-        return
-    for p in shexc.check_closed(schema):
-        yield (p, True, None)
-    if ctx.get("shacl") is not None:
-        for p in shacl_problems(ctx["shacl"]):
+    for r in ctx["runs"]:
+        schema, problem = r["schema"], r["parse_problem"]
+        if problem:
+            yield (problem, True, None)
+            continue
+        for p in shexc.check_closed(schema):
             yield (p, True, None)
+        if r.get("shacl") is not None:
+            for p in shacl_problems(r["shacl"]):
+                yield (p, True, None)
 
 
 def shacl_problems(text):
@@ -94,9 +95,10 @@ def shacl_problems(text):
 # ------------------------------------------------------------------------- C02
 
 def judge_c02(ctx, ex):
-    schema, sym, t = ctx["schema"], ctx["sym"], ctx["t"]
+    r0 = ctx["runs"][0]
+    schema, sym, t = r0["schema"], r0["sym"], r0["t"]
     if schema is None:
-        yield (ctx["parse_problem"], True, None)
+        yield (r0["parse_problem"], True, None)
         return
     tagged = "iri+bnode" in ctx["structure"]["tags"]
     expected_labels = set()
@@ -159,9 +161,10 @@ def _count_candidates(sym, c, d, prop, kind, card, disable_exact, on_line):
 
 
 def judge_c01(ctx, ex):
-    schema, sym, flags = ctx["schema"], ctx["sym"], ctx["flags"]
+    r0 = ctx["runs"][0]
+    schema, sym, flags = r0["schema"], r0["sym"], r0["flags"]
     if schema is None:
-        yield (ctx["parse_problem"], True, None)
+        yield (r0["parse_problem"], True, None)
         return
     for c, size in sym["counts"].items():
         for sh in shape_of(schema, c):
@@ -329,3 +332,625 @@ def concrete_c01(cref, schema, flags, tags):
 
 def _decimals(text):
     return len(text.split(".")[1]) if "." in text else 0
+
+
+# ------------------------------------------------------------------------- views shared by the relational judges
+
+def statements_view(schema):
+    """{shape label: {key: [(card, targets)]}} with key = (inverse, pred, value class)."""
+    out = {}
+    for sh in schema.shapes:
+        d = {}
+        for stm in sh.statements:
+            for k in statement_keys(stm):
+                d.setdefault(k, []).append((stm.card, tuple(stm.targets)))
+        out[sh.label] = d
+    return out
+
+
+def facts(schema):
+    """{(shape, inverse, pred, kind, card): (ratio Fig, count Fig)} over constraint lines and comments."""
+    out = {}
+    for sh in schema.shapes:
+        for stm in sh.statements:
+            if len(stm.targets) == 1 and (stm.ratio is not None or stm.count is not None):
+                out[(sh.label, stm.inverse, stm.pred, _kind_of_target(stm.targets[0]), stm.card, "line")] = (stm.ratio, stm.count)
+            for com in stm.comments:
+                if com.get("other") or com.get("annotation"):
+                    continue
+                kind = _kind_of_target(com["obj"]) if com["obj"] is not None else "OR"
+                out[(sh.label, stm.inverse, stm.pred, kind, com["card"], "comment")] = (com["ratio"], com["count"])
+    return out
+
+
+def fig_differs(ex, f1, f2):
+    """z3 Bool / python bool: the two printed figures can differ."""
+    if f1 is None and f2 is None:
+        return False
+    if f1 is None or f2 is None:
+        return True
+    v1, v2 = fig_value(ex, f1), fig_value(ex, f2)
+    if isinstance(v1, (int, float)) and isinstance(v2, (int, float)):
+        return abs(v1 - v2) > TOL
+    if isinstance(v1, SymInt) or isinstance(v2, SymInt):
+        if isinstance(v1, SymFloat) or isinstance(v2, SymFloat) or isinstance(v1, float) or isinstance(v2, float):
+            raise HarnessError("integer and float figures compared")
+        return as_expr(v1) != as_expr(v2)
+    a, b = SymFloat.lift(v1), SymFloat.lift(v2)
+    deps, p1, p2 = a._merge(b)
+    return a._table(deps, lambda vals: abs(a.fn(p1(vals)) - b.fn(p2(vals))) > TOL)
+
+
+def _shape_classes(ctx):
+    return list(ctx["runs"][0]["sym"]["counts"].keys())
+
+
+# ------------------------------------------------------------------------- C12
+
+def judge_c12(ctx, ex):
+    lo, hi = ctx["runs"][0], ctx["runs"][1]
+    if lo["schema"] is None or hi["schema"] is None:
+        yield (lo["parse_problem"] or hi["parse_problem"], True, None)
+        return
+    tagged = "iri+bnode" in ctx["structure"]["tags"]
+    v_lo, v_hi = statements_view(lo["schema"]), statements_view(hi["schema"])
+    for label, keys in v_hi.items():
+        if label not in v_lo:
+            yield ("shape %s exists at the higher threshold but not at the lower one" % label, True, None)
+            continue
+        for k in keys:
+            if k not in v_lo[label]:
+                cls = "STAGE-nonliteral-filter-before-merge" if tagged and k[2] == ("nonliteral",) else None
+                yield ("constraint %r of %s appears only at the higher threshold" % (k, label), True, cls)
+    f_lo, f_hi = facts(lo["schema"]), facts(hi["schema"])
+    by_fact_lo = {}
+    for k, v in f_lo.items():
+        by_fact_lo.setdefault(k[:5], []).append(v)
+    for k, (ratio, count) in f_hi.items():
+        for (r2, c2) in by_fact_lo.get(k[:5], []):
+            cls = "STAGE-nonliteral-merge-figures" if k[3] == "NONLITERAL" else None
+            yield ("figure (count) of %r differs between the two thresholds" % (k[:5],), fig_differs(ex, count, c2), cls)
+            yield ("figure (ratio) of %r differs between the two thresholds" % (k[:5],), fig_differs(ex, ratio, r2), cls)
+
+
+def judge_c12_zero(ctx, ex):
+    """threshold 0: nothing observed in the data is omitted - every observed (direction, property, value kind) is the value
+    expression of a constraint or is named in one of its comments."""
+    r0 = ctx["runs"][0]
+    if r0["schema"] is None:
+        yield (r0["parse_problem"], True, None)
+        return
+    f = facts(r0["schema"])
+    have = {k[:4] for k in f}
+    for sh in r0["schema"].shapes:
+        for stm in sh.statements:
+            for t in stm.targets:
+                have.add((sh.label, stm.inverse, stm.pred, _kind_of_target(t)))
+    for (c, d, prop, kind, card) in r0["sym"]["ref"]:
+        label = R.shape_name(c)[2:-1]
+        if (label, d == 1, prop, kind) in have:
+            continue
+        if kind in ("IRI", "BNode") and any(h[:3] == (label, d == 1, prop) and (h[3] in ("NONLITERAL", "IRI", "BNode") or h[3].startswith("%")) for h in have):
+            continue   # the non-literal constraint of that property stands for its plain node kinds
+        yield ("at threshold 0 the observed feature %r of %s is neither a constraint nor named in a comment" % ((d, prop, kind), label), True, None)
+
+
+def judge_c12_one(ctx, ex):
+    """threshold 1: only features of all instances remain - every figure still printed (line or comment) is 100 %."""
+    r0 = ctx["runs"][0]
+    if r0["schema"] is None:
+        yield (r0["parse_problem"], True, None)
+        return
+    for k, (ratio, count) in facts(r0["schema"]).items():
+        size = _size_of(ctx, k[0])
+        if count is not None:
+            cv = fig_value(ex, count)
+            cls = "STAGE-nonliteral-merge-figures" if k[3] == "NONLITERAL" else None
+            yield ("at threshold 1 the feature %r is still reported although not all instances have it" % (k[:5],), _neg(_equals(cv, size)), cls)
+
+
+# ------------------------------------------------------------------------- C14
+
+def judge_c14(ctx, ex):
+    inv, direct, rev = ctx["runs"]
+    for r in ctx["runs"]:
+        if r["schema"] is None:
+            yield (r["parse_problem"], True, None)
+            return
+    # instance counts and outgoing constraints untouched
+    for sa, sb in zip(inv["schema"].shapes, direct["schema"].shapes):
+        if sa.label != sb.label:
+            yield ("shape order/labels differ with inverse_paths: %s vs %s" % (sa.label, sb.label), True, None)
+            return
+        yield ("instance count of %s changes with inverse_paths" % sa.label, fig_differs(ex, sa.n_instances, sb.n_instances), None)
+    if len(inv["schema"].shapes) != len(direct["schema"].shapes):
+        yield ("number of shapes changes with inverse_paths", True, None)
+    yield from _same_constraints(ex, _constraint_table(inv["schema"], want_inverse=False), _constraint_table(direct["schema"], want_inverse=False),
+                                 "outgoing constraints with inverse_paths vs without")
+    t_inv = _constraint_table(inv["schema"], want_inverse=True)
+    t_rev = {k: v for k, v in _constraint_table(rev["schema"], want_inverse=False).items() if k[1] != RDF_TYPE and k[2] == ("nonliteral",)}
+    t_rev = {(k[0], k[1], k[2]): v for k, v in t_rev.items()}
+    yield from _same_constraints(ex, t_inv, t_rev, "incoming constraints vs outgoing constraints of reverse(G)")
+
+
+def _constraint_table(schema, want_inverse):
+    """{(shape, pred, value class): (card, targets, ratio, count, comments-as-facts)} for one direction."""
+    out = {}
+    for sh in schema.shapes:
+        for stm in sh.statements:
+            if stm.inverse != want_inverse:
+                continue
+            for k in statement_keys(stm):
+                cf = {}
+                for com in stm.comments:
+                    if com.get("other") or com.get("annotation"):
+                        continue
+                    kind = _kind_of_target(com["obj"]) if com["obj"] is not None else "OR"
+                    cf[(kind, com["card"])] = (com["ratio"], com["count"])
+                out[(sh.label, k[1], k[2])] = (stm.card, tuple(stm.targets), stm.ratio, stm.count, cf)
+    return out
+
+
+def _same_constraints(ex, ta, tb, what):
+    for k in set(ta) | set(tb):
+        if k not in ta or k not in tb:
+            yield ("%s: constraint %r exists on one side only" % (what, k), True, None)
+            continue
+        (ca, ga, ra, na, fa), (cb, gb, rb, nb, fb) = ta[k], tb[k]
+        if ca != cb:
+            yield ("%s: cardinality of %r differs (%r vs %r)" % (what, k, ca, cb), True, None)
+        if ga != gb:
+            yield ("%s: value expression of %r differs (%r vs %r)" % (what, k, ga, gb), True, None)
+        yield ("%s: count of %r differs" % (what, k), fig_differs(ex, na, nb), None)
+        yield ("%s: ratio of %r differs" % (what, k), fig_differs(ex, ra, rb), None)
+        for fk in set(fa) | set(fb):
+            if fk not in fa or fk not in fb:
+                yield ("%s: comment %r of %r exists on one side only" % (what, fk, k), True, None)
+                continue
+            yield ("%s: comment count %r of %r differs" % (what, fk, k), fig_differs(ex, fa[fk][1], fb[fk][1]), None)
+            yield ("%s: comment ratio %r of %r differs" % (what, fk, k), fig_differs(ex, fa[fk][0], fb[fk][0]), None)
+
+
+# ------------------------------------------------------------------------- C11
+
+SH = "http://www.w3.org/ns/shacl#"
+
+
+def shex_tuples(schema, class_of_label):
+    out = []
+    for sh in schema.shapes:
+        for stm in sh.statements:
+            if len(stm.targets) != 1:
+                continue
+            kind, v = stm.targets[0]
+            if kind == "datatype":
+                restr = ("datatype", v)
+            elif kind == "ref":
+                restr = ("node", v)
+            elif kind == "value":
+                restr = ("in", v)
+            else:
+                restr = ("nodeKind", {"IRI": SH + "IRI", "BNode": SH + "BlankNode", "NONLITERAL": SH + "BlankNodeOrIRI", "LITERAL": SH + "Literal", ".": None}[v])
+            card = stm.card
+            mn, mx = {"?": (None, 1), "*": (None, None), "+": (1, None)}.get(card, (card, card))
+            out.append((sh.label, class_of_label.get(sh.label), stm.inverse, stm.pred, restr, mn, mx))
+    return sorted(out, key=repr)
+
+
+def shacl_tuples(text):
+    import rdflib
+    g = rdflib.Graph()
+    g.parse(data=text, format="turtle")
+    S = rdflib.Namespace(SH)
+    out = []
+    for shape in g.subjects(rdflib.RDF.type, S.NodeShape):
+        tcs = [str(x) for x in g.objects(shape, S.targetClass)]
+        tc = tcs[0] if len(tcs) == 1 else (None if not tcs else tuple(sorted(tcs)))
+        for ps in g.objects(shape, S.property):
+            paths = [str(x) for x in g.objects(ps, S.path)]
+            invs = [str(x) for b in g.objects(ps, S.property) for x in g.objects(b, S.inversePath)]
+            inverse, pred = (False, paths[0]) if len(paths) == 1 and not invs else ((True, invs[0]) if len(invs) == 1 and not paths else (None, tuple(paths + invs)))
+            restrs = []
+            for o in g.objects(ps, S.dataType):
+                restrs.append(("datatype", str(o)))
+            for o in g.objects(ps, S.datatype):
+                restrs.append(("datatype", str(o)))
+            for o in g.objects(ps, S.nodeKind):
+                restrs.append(("nodeKind", str(o)))
+            for o in g.objects(ps, S.node):
+                restrs.append(("node", str(o)))
+            for o in g.objects(ps, S["in"]):
+                items = [str(x) for x in rdflib.collection.Collection(g, o)]
+                restrs.append(("in", items[0] if len(items) == 1 else tuple(items)))
+            restr = restrs[0] if len(restrs) == 1 else (("nodeKind", None) if not restrs else ("several", tuple(restrs)))
+            mn = [int(x) for x in g.objects(ps, S.minCount)]
+            mx = [int(x) for x in g.objects(ps, S.maxCount)]
+            out.append((str(shape), tc, inverse, pred, restr, mn[0] if mn else None, mx[0] if mx else None))
+    return sorted(out, key=repr)
+
+
+def c11_differences(schema, shacl_text, classes):
+    class_of_label = {R.shape_name(c)[2:-1]: c for c in classes}
+    a = shex_tuples(schema, class_of_label)
+    try:
+        b = shacl_tuples(shacl_text)
+    except Exception as e:  # noqa
+        return ["SHACL output unreadable: %s" % str(e)[:100]]
+    out = []
+    for x in a:
+        if x not in b:
+            out.append("ShExC constraint without SHACL counterpart: %r" % (x,))
+    for x in b:
+        if x not in a:
+            out.append("SHACL property shape without ShExC counterpart: %r" % (x,))
+    shex_shapes = {(sh.label, class_of_label.get(sh.label)) for sh in schema.shapes}
+    import rdflib
+    g = rdflib.Graph()
+    g.parse(data=shacl_text, format="turtle")
+    S = rdflib.Namespace(SH)
+    shacl_shapes = set()
+    for shape in g.subjects(rdflib.RDF.type, S.NodeShape):
+        tcs = [str(x) for x in g.objects(shape, S.targetClass)]
+        shacl_shapes.add((str(shape), tcs[0] if len(tcs) == 1 else None))
+    if shex_shapes != shacl_shapes:
+        out.append("node shapes differ: ShExC %r vs SHACL %r" % (sorted(shex_shapes, key=repr), sorted(shacl_shapes, key=repr)))
+    return out
+
+
+def _c11_class(problem):
+    if "BlankNodeOrIRI" in problem or "NONLITERAL" in problem:
+        return "STAGE-shacl-nonliteral"
+    if "BlankNode" in problem:
+        return "STAGE-shacl-bnode-kind"
+    if "('in'," in problem:
+        return "STAGE-shacl-type-cardinality"
+    return None
+
+
+def judge_c11(ctx, ex):
+    r0 = ctx["runs"][0]
+    if r0["schema"] is None:
+        yield (r0["parse_problem"], True, None)
+        return
+    for p in c11_differences(r0["schema"], r0["shacl"], _shape_classes(ctx)):
+        yield (p, True, _c11_class(p))
+
+
+# ------------------------------------------------------------------------- C13
+
+def _views_equal(va, vb, what, map_label=lambda x: x):
+    la, lb = {map_label(k): v for k, v in va.items()}, {map_label(k): v for k, v in vb.items()}
+    if set(la) != set(lb):
+        yield ("%s changes the set of shapes: %r vs %r" % (what, sorted(la), sorted(lb)), True, None)
+        return
+    for label in la:
+        if la[label] != lb[label]:
+            yield ("%s changes the constraints/cardinalities of %s: %r vs %r" % (what, label, la[label], lb[label]), True, None)
+
+
+def judge_c13(ctx, ex):
+    a, b = ctx["runs"]
+    opt = ctx["scenario"][5:]
+    for r in ctx["runs"]:
+        if r["schema"] is None:
+            yield (r["parse_problem"], True, None)
+            return
+    va, vb = statements_view(a["schema"]), statements_view(b["schema"])
+    if opt in ("disable_comments", "namespaces_dict") or opt.startswith("decimals=") or opt.startswith("report="):
+        yield from _views_equal(va, vb, "presentation option %s" % opt)
+        if opt.startswith("decimals="):
+            yield from _decimals_check(ctx, ex, b, int(opt.split("=")[1]))
+        return
+    if opt == "shapes_namespace":
+        def strip(label):
+            return label.rsplit("/", 1)[-1]
+        cls = "STAGE-shapes-namespace-not-propagated"
+        for item in _views_equal(_strip_refs(va), _strip_refs(vb), "shapes_namespace", strip):
+            yield (item[0], item[1], cls)
+        return
+    if set(va) != set(vb):
+        yield ("option %s changes the set of shapes" % opt, True, None)
+        return
+    fb = facts(b["schema"])
+    for label in va:
+        ka, kb = va[label], vb[label]
+        if set(ka) != set(kb):
+            yield ("option %s changes the constraint keys of %s: %r vs %r" % (opt, label, sorted(ka, key=repr), sorted(kb, key=repr)), True, None)
+            continue
+        for k in ka:
+            for (ca, ga), (cb, gb) in zip(ka[k], kb[k]):
+                yield from _pair_rule(ctx, ex, opt, label, k, ca, ga, cb, gb, a, b)
+
+
+def _strip_refs(view):
+    out = {}
+    for label, d in view.items():
+        out[label] = {k: [(c, tuple((t[0], t[1].rsplit("/", 1)[-1]) if t[0] == "ref" else t for t in g)) for c, g in v] for k, v in d.items()}
+    return out
+
+
+def _find_line(schema, label, key):
+    for sh in schema.shapes:
+        if sh.label == label:
+            for stm in sh.statements:
+                if key in statement_keys(stm):
+                    return stm
+    return None
+
+
+def _pair_rule(ctx, ex, opt, label, k, ca, ga, cb, gb, a, b):
+    where = "%s of %s" % (k, label)
+    if opt == "all_instances_are_compliant_mode":      # a: on, b: off
+        if ga != gb:
+            yield ("all-compliant mode changes the value expression of %s" % where, True, None)
+        if ca != cb:
+            if ca not in ("?", "*"):
+                yield ("all-compliant mode rewrites %s to %r" % (where, ca), True, None)
+            if ca == "?" and not (a["flags"]["allow_opt_cardinality"] and cb == 1):
+                yield ("all-compliant mode uses '?' on %s whose cardinality was %r" % (where, cb), True, None)
+            stm = _find_line(b["schema"], label, k)
+            size = _size_of(ctx, label)
+            if stm is not None and stm.count is not None:
+                cv = fig_value(ex, stm.count)
+                yield ("all-compliant mode relaxes %s although all instances have it" % where, _equals(cv, size), None)
+        else:
+            stm = _find_line(b["schema"], label, k)
+            size = _size_of(ctx, label)
+            if stm is not None and stm.count is not None and stm.card not in ("?", "*"):
+                cv = fig_value(ex, stm.count)
+                yield ("all-compliant mode leaves %s untouched although not all instances have it" % where, _neg(_equals(cv, size)),
+                       "STAGE-nonliteral-merge-figures" if any(t == ("kind", "NONLITERAL") for t in ga) else None)
+    elif opt == "allow_opt_cardinality":                # a: allowed, b: not
+        if ga != gb:
+            yield ("allow_opt_cardinality changes the value expression of %s" % where, True, None)
+        if ca != cb and not (ca == "?" and cb == "*"):
+            yield ("allow_opt_cardinality=False changes %s from %r to %r" % (where, ca, cb), True, None)
+        if cb == "?":
+            yield ("allow_opt_cardinality=False still prints '?' on %s" % where, True, None)
+    elif opt == "disable_exact_cardinality":            # a: disabled (True), b: exact
+        if ga != gb:
+            yield ("disable_exact_cardinality changes the value expression of %s" % where, True, None)
+        if ca != cb and not (ca == "+" and isinstance(cb, int) and cb > 1):
+            yield ("disable_exact_cardinality changes %s from %r to %r" % (where, cb, ca), True, None)
+        if isinstance(ca, int) and ca > 1:
+            yield ("disable_exact_cardinality leaves the exact cardinality {%d} on %s" % (ca, where), True, None)
+    elif opt in ("disable_or_statements", "allow_redundant_or"):
+        if ca != cb:
+            yield ("%s changes the cardinality of %s from %r to %r" % (opt, where, ca, cb), True, None)
+        if ga != gb:
+            stm = _find_line(a["schema"], label, k)
+            alts = set(ga)
+            if stm is not None:
+                alts |= {com["obj"] for com in stm.comments if com.get("obj")}
+            if not (len(gb) > 1 and set(gb) <= alts and k[2] == ("nonliteral",)):
+                yield ("%s turns %s into %r which is not a disjunction over its alternatives %r" % (opt, where, gb, sorted(alts, key=repr)), True, None)
+    else:
+        if (ca, ga) != (cb, gb):
+            yield ("option %s changes %s" % (opt, where), True, None)
+
+
+def _size_of(ctx, label):
+    for c, s in ctx["runs"][0]["sym"]["counts"].items():
+        if R.shape_name(c)[2:-1] == label:
+            return s
+    raise HarnessError("no class for label %s" % label)
+
+
+def _equals(v, size):
+    if isinstance(v, (int, float)) and isinstance(size, int):
+        return v == size
+    return as_expr(v) == as_expr(size)
+
+
+def _decimals_check(ctx, ex, run, n):
+    from symx.symnum import render_token
+    for sh in run["schema"].shapes:
+        size = _size_of(ctx, sh.label)
+        items = []
+        for stm in sh.statements:
+            if stm.ratio is not None and stm.count is not None:
+                items.append((stm.ratio, stm.count, stm.raw.strip()[:50]))
+            for com in stm.comments:
+                if com.get("ratio") is not None and com.get("count") is not None:
+                    items.append((com["ratio"], com["count"], com["raw"][:50]))
+        for ratio, count, where in items:
+            if ratio.token is None:
+                continue
+            entry = ex.tokens[ratio.token]
+            rv, cv = entry[0], fig_value(ex, count)
+            rf, cf, sf = SymFloat.lift(rv), SymFloat.lift(cv), SymFloat.lift(size)
+            deps, p1, p2 = rf._merge(cf)
+            tmp = SymFloat(deps, lambda vals: 0)
+            deps2, q1, q2 = tmp._merge(sf)
+
+            def pred(vals, rf=rf, cf=cf, sf=sf, p1=p1, p2=p2, q1=q1, q2=q2, entry=entry):
+                v12 = q1(vals)
+                r = rf.fn(p1(v12))
+                c = cf.fn(p2(v12))
+                s_ = sf.fn(q2(vals))
+                if s_ == 0:
+                    return False
+                shown = float(format(r, entry[1]) if entry[2] == "format" else str(r))
+                return abs(shown - 100.0 * c / s_) > 0.5 * 10 ** (-n) + 1e-9
+            cls = "STAGE-decimals0-truncates" if n == 0 else None
+            yield ("decimals=%d: ratio on '%s' of %s is not the exact ratio rounded to %d places" % (n, where, sh.label, n), rf._table(deps2, pred), cls)
+
+
+# ------------------------------------------------------------------------- C03 (reference validator)
+
+def _matches_value(node_term, target, ctx, visiting):
+    kind, v = target
+    if kind == "datatype":
+        return node_term[0] == "lit" and node_term[1] == v
+    if kind == "value":
+        return node_term[0] == "iri" and node_term[1] == v
+    if kind == "kind":
+        if v == "IRI":
+            return node_term[0] == "iri"
+        if v == "BNode":
+            return node_term[0] == "bnode"
+        if v == "NONLITERAL":
+            return node_term[0] in ("iri", "bnode")
+        if v == "LITERAL":
+            return node_term[0] == "lit"
+        return True
+    if kind == "ref":
+        if node_term[0] == "lit":
+            return False
+        return conforms(node_term[1], v, ctx, visiting)
+    return False
+
+
+def conforms(node, shape_label, ctx, visiting):
+    key = (node, shape_label)
+    if key in visiting:
+        return True
+    if key in ctx["memo"]:
+        return ctx["memo"][key]
+    shape = ctx["shapes"].get(shape_label)
+    if shape is None:
+        return False
+    visiting = visiting | {key}
+    ok = True
+    groups = {}
+    for stm in shape.statements:
+        groups.setdefault((stm.inverse, stm.pred), []).append(stm)
+    for (inverse, pred), stms in groups.items():
+        values = ctx["in"].get((node, pred), []) if inverse else ctx["out"].get((node, pred), [])
+        if not _partition(values, stms, ctx, visiting):
+            ok = False
+            ctx["why"].append("node %s vs %s: values %r of %s%s cannot be distributed over %r" % (
+                node, shape_label, values, "^" if inverse else "", pred, [(s.card, s.targets) for s in stms]))
+            break
+    ctx["memo"][key] = ok
+    return ok
+
+
+def _bounds(card):
+    return {"?": (0, 1), "*": (0, 10 ** 9), "+": (1, 10 ** 9)}.get(card, (card, card))
+
+
+def _partition(values, stms, ctx, visiting):
+    n = len(stms)
+    match = [[any(_matches_value(v, t, ctx, visiting) for t in s.targets) for s in stms] for v in values]
+
+    def rec(i, counts):
+        if i == len(values):
+            return all(_bounds(s.card)[0] <= c <= _bounds(s.card)[1] for s, c in zip(stms, counts))
+        for j in range(n):
+            if match[i][j] and counts[j] < _bounds(stms[j].card)[1]:
+                counts[j] += 1
+                if rec(i + 1, counts):
+                    return True
+                counts[j] -= 1
+        return False
+    return rec(0, [0] * n)
+
+
+def validate_graph(schema, triples, inverse):
+    """-> list of problems: every instance must conform to the shape of each of its classes."""
+    instances, _ = R.refprof(triples, inverse=False)
+    out_idx, in_idx = {}, {}
+    for s, p, o in triples:
+        out_idx.setdefault((s[1], p), []).append(o)
+        if o[0] != "lit":
+            in_idx.setdefault((o[1], p), []).append(s)
+    ctx = dict(shapes={sh.label: sh for sh in schema.shapes}, out=out_idx, memo={}, why=[])
+    ctx["in"] = in_idx
+    problems = []
+    for node, classes in instances.items():
+        for c in classes:
+            label = R.shape_name(c)[2:-1]
+            if label not in ctx["shapes"]:
+                continue
+            ctx["why"] = []
+            if not conforms(node, label, ctx, frozenset()):
+                problems.append("instance %s does not conform to %s (%s)" % (node, label, "; ".join(ctx["why"][:1])))
+    return problems
+
+
+def judge_c03(ctx, ex):
+    r0 = ctx["runs"][0]
+    if r0["schema"] is None:
+        yield (r0["parse_problem"], True, None)
+        return
+    st = ctx["structure"]
+    triples = R.generate_triples(st["rows"], None, representative=True)
+    for p in validate_graph(r0["schema"], triples, r0["flags"]["inverse_paths"]):
+        yield (p, True, _c03_class(st, r0["flags"]))
+    # '?' only when no instance has more than one matching value
+    for sh in r0["schema"].shapes:
+        for stm in sh.statements:
+            if stm.card == "?":
+                pass  # covered by conformance: an instance with two values would fail '?'
+
+
+def _c03_class(st, flags):
+    if "ref-tie" in st["tags"]:
+        return "STAGE-ref-tie"
+    if "iri+bnode" in st["tags"]:
+        return "STAGE-nonliteral-merge-figures"
+    if not flags["keep_less_specific"]:
+        return "STAGE-keep-less-specific-off"
+    return None
+
+
+# ------------------------------------------------------------------------- registries
+
+JUDGES = {
+    "C01": [judge_c01], "C02": [judge_c02], "C04": [], "C05": [judge_c05], "C12": [judge_c12], "C12z": [judge_c12_zero], "C12o": [judge_c12_one],
+    "C14": [judge_c14], "C11": [judge_c11], "C13": [judge_c13], "C03": [judge_c03],
+}
+
+
+def _cref(c, i=0):
+    return ConcreteRef(c["triples"] if c["reals"][i]["run"]["graph"] == "G" else __import__("harness.stage", fromlist=["x"]).reverse_triples(c["triples"]),
+                       c["reals"][i]["run"]["flags"]["inverse_paths"])
+
+
+class _ConcreteEx:
+    """Stand-in for the explorer when the symbolic judges are reused on concrete outputs (no tokens)."""
+    tokens = []
+
+
+def _run_symbolic_judge_concretely(judge, c):
+    """The relational judges only compare parsed outputs; on concrete texts every `bad` is a python bool."""
+    runs = []
+    for x, sch in zip(c["reals"], c["schemas"]):
+        cref = _cref(c, len(runs))
+        r = dict(x["run"])
+        r.update(schema=sch, parse_problem=None, text=x["text"], shacl=x["shacl"], t=x["thr"])
+        r["sym"] = dict(ref=cref.ref, nonlit=cref.nonlit, both_kinds=cref.both, counts=cref.sizes)
+        runs.append(r)
+    ctx = dict(runs=runs, structure=dict(tags=c["tags"], rows=None), scenario=c["scenario"], flags=c["flags"], cfg=c["cfg"])
+    out = []
+    for what, bad, cls in judge(ctx, _ConcreteEx()):
+        if bad is True or (bad is not False and not isinstance(bad, bool) and z3.is_true(z3.simplify(bad))):
+            if cls is not None and cls in c["active"]:
+                continue
+            out.append(what)
+    return out
+
+
+def _conc_c03(c):
+    st_tags = c["tags"]
+    flags = c["flags"]
+    cls = _c03_class(dict(tags=st_tags), flags)
+    if cls is not None and cls in c["active"]:
+        return []
+    return validate_graph(c["schemas"][0], c["triples"], flags["inverse_paths"])
+
+
+CONCRETE = {
+    "C01": lambda c: concrete_c01(_cref(c), c["schemas"][0], c["reals"][0]["run"]["flags"], c["tags"] + (["iri+bnode-known"] if "STAGE-nonliteral-merge-figures" in c["active"] else [])),
+    "C02": lambda c: concrete_c02(_cref(c), c["schemas"][0], c["reals"][0]["thr"], c["tags"] if "STAGE-nonliteral-filter-before-merge" in c["active"] else [t for t in c["tags"] if t != "iri+bnode"]),
+    "C04": lambda c: [],
+    "C05": lambda c: [p for x, sch in zip(c["reals"], c["schemas"]) for p in shexc.check_closed(sch) + (shacl_problems(x["shacl"]) if x["shacl"] is not None else [])],
+    "C12": lambda c: _run_symbolic_judge_concretely(judge_c12, c),
+    "C12z": lambda c: _run_symbolic_judge_concretely(judge_c12_zero, c),
+    "C12o": lambda c: _run_symbolic_judge_concretely(judge_c12_one, c),
+    "C14": lambda c: _run_symbolic_judge_concretely(judge_c14, c),
+    "C11": lambda c: _run_symbolic_judge_concretely(judge_c11, c),
+    "C13": lambda c: _run_symbolic_judge_concretely(judge_c13, c),
+    "C03": _conc_c03,
+}
